@@ -1,7 +1,8 @@
 (* C08: filtering keeps exactly the selected IDs, intact and in order.
    Statements only; proofs are in Proofs/FilterProofs.v. *)
-From Coq Require Import List Arith ZArith Bool.
+From Coq Require Import List Arith ZArith Bool Lia.
 From BiomV Require Import Base.Tree Base.ListUtil Base.Matrix Model.Table Model.Filter Proofs.FilterProofs.
+From BiomV Require Import Proofs.FilterKernelProofs.
 Import ListNotations.
 
 (* Filtering by an ID collection: exactly the selected ids (the others with invert), in their
@@ -99,3 +100,32 @@ Proof. eexists. vm_compute. repeat split; reflexivity. Qed.
 Example ex_remove_empty : oids (remove_empty_axis Obs ex_table) = [10;30]%Z /\
                           sids (remove_empty_whole ex_table) = [1;2;4]%Z.
 Proof. vm_compute. split; reflexivity. Qed.
+
+(* K1, the compiled row compaction _remove_rows_csr (_filter.pyx), over the definition
+   remove_rows that tools/py2v regenerates from the source on every check (Gen/FilterGen.v).
+   For EVERY well-formed CSR triple (indptr of length m+1 starting at 0, non-decreasing, ending
+   at the number of stored entries; as many indices as data) and EVERY boolean mask (a short
+   mask reads as false), the arrays the kernel leaves behind, truncated as the code truncates
+   them, are exactly the concatenation of the kept rows' segments of indices and of data,
+   indptr is the list of prefix sums of the kept rows' lengths, and the shape is
+   (number of kept rows, n). *)
+Theorem remove_rows_ok : forall m n indptr indices data mask,
+  wf_csr m indptr indices data ->
+  remove_rows indptr indices data (m, n) mask =
+    (psums 0 (map (rlen indptr) (kept_rows mask m)),
+     concat (map (seg indptr indices) (kept_rows mask m)),
+     concat (map (seg indptr data) (kept_rows mask m)),
+     (length (kept_rows mask m), n)).
+Proof. exact remove_rows_ok_lemma. Qed.
+Print Assumptions remove_rows_ok.
+
+(* non-vacuity: a 4 x 3 matrix with an empty row; rows 0 and 3 are dropped *)
+Example ex_csr_wf : wf_csr 4 [0;2;2;3;5] [0;2;1;0;1] [5;7;2;4;9]%Z.
+Proof.
+  unfold wf_csr. split; [reflexivity|]. split; [reflexivity|]. split; [|split; reflexivity].
+  intros i Hi. destruct i as [|[|[|[|i]]]]; simpl; lia.
+Qed.
+Example ex_remove_rows :
+  remove_rows [0;2;2;3;5] [0;2;1;0;1] [5;7;2;4;9]%Z (4, 3) [false;true;true;false] =
+  ([0;0;1], [1], [2]%Z, (2, 3)).
+Proof. vm_compute. reflexivity. Qed.
